@@ -277,20 +277,32 @@ def coq_c1(c1, arms):
             % (";\n  ".join(opt), ";\n  ".join(arms)))
 
 
-def main():
+def regenerate():
+    """returns (status, info): status 0 ok / 2 untranslatable; info has ents, c1, arms, changed, error"""
+    info = {"ents": None, "c1": None, "arms": None, "changed": [], "error": None}
     try:
         ents, c1 = parse_dump(run_dump())
+        info["ents"], info["c1"] = ents, c1
         arms = parse_finish_numeric(open(CHARREF_RS).read())
+        info["arms"] = arms
     except TranslateError as e:
-        sys.stderr.write("gen_entities: cannot translate: %s\n" % e)
-        return 2
-    ch = []
+        info["error"] = str(e)
+        return 2, info
     if write_if_changed(os.path.join(GEN, "GenEntities.v"), coq_entities(ents)):
-        ch.append("GenEntities.v")
+        info["changed"].append("GenEntities.v")
     if write_if_changed(os.path.join(GEN, "GenC1.v"), coq_c1(c1, arms)):
-        ch.append("GenC1.v")
+        info["changed"].append("GenC1.v")
+    return 0, info
+
+
+def main():
+    rc, info = regenerate()
+    if rc != 0:
+        sys.stderr.write("gen_entities: cannot translate: %s\n" % info["error"])
+        return rc
+    ch = info["changed"]
     print("gen_entities: %d map entries, %d C1 entries, %d numeric arms; %s" % (
-        len(ents), len(c1), len(arms), ("rewrote " + ", ".join(ch)) if ch else "unchanged"))
+        len(info["ents"]), len(info["c1"]), len(info["arms"]), ("rewrote " + ", ".join(ch)) if ch else "unchanged"))
     return 0
 
 
